@@ -67,6 +67,82 @@ def z5_size():
 U.ZONES["Z5"] = (z5, z5_size)
 
 
+# ------------------------------------------------------------------ Z6: specification boundaries
+# every numeric limit the specification states, swept across the boundary, in three contexts
+def _b(n):
+    return [
+        "#" * n + " h",                                   # ATX: 1..6
+        "#" * n,                                          # empty ATX
+        " " * n + "# h",                                  # indentation 0..3 vs 4
+        " " * n + "- a",
+        " " * n + "> a",
+        " " * n + "```\nc\n```",
+        " " * n + "---",
+        " " * n + "code?",
+        "a\n" + " " * n + "===",                          # setext underline indentation
+        "a\n" + "=" * n,
+        "a\n" + "-" * n,
+        "-" * n,                                          # thematic break length
+        "*" * n,
+        "_ " * n,
+        "`" * n + "c" + "`" * n,                          # code span fence lengths
+        "`" * n + "\ncode\n" + "`" * n,                   # fenced block fence length
+        "~" * n + "\ncode\n" + "~" * 3,
+        "```\ncode\n" + "`" * n,                          # closing fence shorter/longer
+        "1" * n + ". item",                               # ordered list number digits 1..9
+        "1" * n + ") item",
+        "-" + " " * n + "item",                           # spaces after list marker 1..4 vs 5
+        "1." + " " * n + "item",
+        "- a\n" + " " * n + "b",                          # continuation indentation
+        "- a\n\n" + " " * n + "b",
+        "1. a\n\n" + " " * n + "b",
+        "> a\n" + " " * n + "> b",
+        "<" + "a" * n + ":x>",                            # URI scheme length 2..32
+        "<" + "a" * n + ":" + "b" * 3 + ">",
+        "<a" + "b" * n + "@c.d>",
+        "&#" + "1" * n + ";",                             # numeric entity digits 1..7
+        "&#x" + "f" * n + ";",
+        "&" + "a" * n + ";",
+        "[a](" + "(" * n + "b" + ")" * n + ")",           # balanced parentheses in destination
+        "[" * n + "a" + "]" * n + "(/u)",
+        "[a](/u " + '"' + "t" * n + '")',
+        "[" + "a" * (n * 30) + "]: /u\n\n[" + "a" * (n * 30) + "]",   # label length towards 999
+        "*" * n + "a" + "*" * n,                          # emphasis run lengths
+        "_" * n + "a" + "_" * n,
+        "*" * n + "a" + "*" * max(0, n - 1),
+        "a" + " " * n + "\nb",                            # trailing spaces: hard break at >= 2
+        "a" + "\\" * n + "\nb",
+        "\t" * (n % 4) + " " * (n // 4) + "a",
+        "-" + "\t" * (n % 3 + 1) + "a" + " " * (n // 3),
+        "<" + "div" + " a" * n + ">",
+        "<!" + "-" * n + " c " + "-" * n + ">",
+        "a" * n + "_b_" + "c" * (n % 3),
+    ]
+
+
+Z6_N = 41
+_Z6_FAM = len(_b(3))
+
+
+def z6(i):
+    ctx, j = i % 3, i // 3
+    fam, n = j % _Z6_FAM, j // _Z6_FAM
+    d = _b(n)[fam]
+    if ctx == 1:
+        d = "\n".join("> " + ln for ln in d.split("\n"))
+    elif ctx == 2:
+        ls = d.split("\n")
+        d = "\n".join(["- " + ls[0]] + ["  " + ln for ln in ls[1:]])
+    return d + "\n"
+
+
+def z6_size():
+    return 3 * _Z6_FAM * Z6_N
+
+
+U.ZONES["Z6"] = (z6, z6_size)
+
+
 def content_hash():
     h = hashlib.sha256()
     for p in (os.path.abspath(__file__), os.path.join(os.path.dirname(os.path.abspath(__file__)), "prng.py")):
